@@ -88,7 +88,9 @@ class Tracer:
             if simple:
                 g = funcs.context.interpreter.globals
                 if isinstance(rv, NicknameSlot):
-                    obs = ["slot", [rv._tablename, rv.id]]
+                    # observe without side effect: `.id` would reserve an id itself
+                    aid = rv.allocated_id
+                    obs = ["slot", [rv._tablename, aid if isinstance(aid, int) else repr(aid)]]
                 elif isinstance(rv, ObjectRow):
                     obs = ["row", [rv._tablename, rv.id]]
                 else:
